@@ -360,11 +360,14 @@ class C17:
             pipe = case["pipe"]
             data = b"".join(q.wire() for q in pipe)
             prev = 0
-            for cut in case.get("cuts", []):             # TCP segmentation: the same bytes in several writes
-                u.send_raw(data[prev:cut])
-                prev = cut
-                time.sleep(0.002)
-            u.send_raw(data[prev:])
+            try:
+                for cut in case.get("cuts", []):         # TCP segmentation: the same bytes in several writes
+                    u.send_raw(data[prev:cut])
+                    prev = cut
+                    time.sleep(0.002)
+                u.send_raw(data[prev:])
+            except OSError:
+                pass                                     # closed by the server meanwhile: shows up as missing replies
             first = None
             try:
                 first = u.read_reply(2.0)               # so that the sentinel arrives in a later read
@@ -666,7 +669,7 @@ def main(tier, seed):
 def split_phase(c17, r, n):
     """the same pipelines cut into several TCP writes at arbitrary byte offsets (frames split across reads)"""
     recs = []
-    names = [b"GET", b"SYNC", b"PSYNC", b"sync", b"SUBSCRIBE", b"MONITOR", b"REPLCONF", b"EVAL", b"MULTI", b"FLUSHALL", b"AUTH", b"QUIT", b"\xc5\xbfync"]
+    names = [b"GET", b"SYNC", b"PSYNC", b"sync", b"SUBSCRIBE", b"MONITOR", b"REPLCONF", b"EVAL", b"MULTI", b"FLUSHALL", b"AUTH", b"\xc5\xbfync"]    # not QUIT: when it closes depends on the read boundaries
     for i in range(n):
         nb = r.choice(names)
         q = Req(nb, typical_args(nb.decode("latin-1").upper(), c17.seed))
